@@ -157,7 +157,7 @@ theorem field_roundtrip (N : Num) (hN : NumLaws N) (pt : Bytes) (ty : FieldTy) (
       refine ⟨hne, ?_⟩
       rw [← hkvs]
       simp only [setValue, zeroF, foldl_groupStep_points, List.nil_append, maxStructureSize]
-      rw [if_neg (by omega)]
+      rw [if_neg (by have := List.length_filter_le (fun p => !tombOdd p.tomb) ps; omega)]
       have := setMap_enc N pt k ps kvs hm (fun kv hkv => (hall kv hkv).1) hnd [] (fun a ha => absurd ha List.not_mem_nil)
       rw [this]; rfl
   case struct.struct fs vs =>
